@@ -76,7 +76,7 @@ func rprop(f func(ConstVector) (MagicScalar, error), x0 ConstVector, step_init f
   }
   gradient_is_nan := func(s Scalar) bool {
     for i := 0; i < s.GetN(); i++ {
-      if math.IsNaN(s.GetDerivative(i)) {
+      if math.IsNaN(s.GetDerivative(i)) || math.IsInf(s.GetDerivative(i), 0) {
         return true
       }
     }
@@ -126,6 +126,7 @@ func rprop(f func(ConstVector) (MagicScalar, error), x0 ConstVector, step_init f
       }
     }
     for {
+      moved := false
       // update x
       for i := 0; i < x1.Dim(); i++ {
         if gradient_new[i] != 0.0 {
@@ -138,6 +139,13 @@ func rprop(f func(ConstVector) (MagicScalar, error), x0 ConstVector, step_init f
         if math.IsNaN(x2.At(i).GetFloat64()) {
           return x2, fmt.Errorf("NaN value detected")
         }
+        if x2.Float64At(i) != x1.Float64At(i) {
+          moved = true
+        }
+      }
+      if !moved {
+        // the step sizes have been reduced until x does not change any more
+        return x1, fmt.Errorf("step size underflow: no valid step found")
       }
       // evaluate objective function
       if err := x2.Variables(1); err != nil {
